@@ -1,5 +1,9 @@
 #!/bin/bash
-# usage: seed_eval.sh <property> <worktree> <seed-id>  -- confirm a seeded defect and run all checks against it
+# usage: seed_eval.sh <property> <worktree> <seed-id>
+# Confirms a seeded defect (demo before/after, test-suite) and runs all 19 quick checks against the
+# changed tree.  The checks are pointed at the worktree (VERIF_REPO), which holds /repo's HEAD plus the
+# change -- equivalent to `git -C /repo apply patch` ... `git -C /repo checkout -- .`, but several seeds
+# can be evaluated concurrently and /repo is never left dirty.
 set -u
 P=$1; WT=$2; ID=$3
 OUT=/verif/seeded/$ID
@@ -7,19 +11,18 @@ mkdir -p $OUT
 git -C $WT diff -- checkpoint_schedules > $OUT/patch.diff
 cp $WT/demo.py $OUT/demo.py
 echo "== demo on unchanged library"
-( cd $WT && git stash -q -- checkpoint_schedules && /venv/bin/python demo.py > $OUT/demo_before.txt 2>&1; echo "exit $?" >> $OUT/demo_before.txt; git stash pop -q )
-tail -2 $OUT/demo_before.txt
+( cd $WT && git apply -R $OUT/patch.diff && /venv/bin/python demo.py > $OUT/demo_before.txt 2>&1; echo "exit $?" >> $OUT/demo_before.txt; git apply $OUT/patch.diff )
+tail -2 $OUT/demo_before.txt | cut -c1-300
 echo "== demo with change"
 ( cd $WT && /venv/bin/python demo.py > $OUT/demo_after.txt 2>&1; echo "exit $?" >> $OUT/demo_after.txt )
-tail -3 $OUT/demo_after.txt
+tail -3 $OUT/demo_after.txt | cut -c1-300
 echo "== test-suite with change"
-( cd $WT && /venv/bin/python -m pytest -q -p no:cacheprovider -n 8 --timeout=900 2>&1 | tail -1 ) | tee $OUT/tests.txt
-echo "== checks against the change applied to /repo"
-git -C /repo apply $OUT/patch.diff || { echo "patch does not apply"; exit 3; }
+( cd $WT && /venv/bin/python -m pytest -q -p no:cacheprovider -n 4 --timeout=900 2>&1 | tail -1 ) | tee $OUT/tests.txt
+echo "== patch applies to /repo HEAD"
+git -C /repo apply --check $OUT/patch.diff && echo yes
+echo "== checks against the changed tree"
 : > $OUT/checks.txt
 for i in 01 02 03 04 05 06 07 08 09 10 11 12 13 14 15 16 17 18 19; do
-  r=$(cd /verif && timeout 1200 ./check C$i --tier quick 2>&1 | grep -E "^VIOLATION|^OK|^KNOWN|harness error" | head -2 | tr '\n' ' ')
+  r=$(cd /verif && VERIF_REPO=$WT VERIF_NPROC=6 timeout 2400 ./check C$i --tier quick 2>&1 | grep -E "^VIOLATION|^OK|^KNOWN|harness error|^  " | head -3 | tr '\n' ' ' | cut -c1-400)
   echo "C$i: $r" | tee -a $OUT/checks.txt
 done
-git -C /repo checkout -- .
-git -C /repo status --short | head -3
